@@ -33,5 +33,9 @@ case = '''        | "X" when not !halted ->
 '''
 open("gdriver.ml", "w").write(dr.replace(anchor, case + anchor))
 PY
+GV=$V/coq/theories/Model/Genesis
+if [ ! -f "$GV.vo" ] || [ "$GV.v" -nt "$GV.vo" ]; then
+  (cd "$V/coq" && timeout 1200 coqc -Q theories Hub -w -notation-overridden theories/Model/Genesis.v)
+fi
 timeout 1200 coqc -Q "$V/coq/theories" Hub ExtractGenesis.v
 ocamlfind ocamlopt -package zarith -linkpkg -w -a hub_model.mli hub_model.ml gdriver.ml -o hub_genesis_run
